@@ -458,9 +458,10 @@ func (term *TermInvoke) LLString() string {
 	if term.AddrSpace != 0 {
 		fmt.Fprintf(buf, " %s", term.AddrSpace)
 	}
-	// Use function signature instead of return type for variadic functions.
+	// Use function signature instead of return type for variadic functions, and
+	// for invokees whose type was given by name (`%fn = type void ()`).
 	invokeeType := term.Type()
-	if sig := term.Sig(); sig.Variadic {
+	if sig := term.Sig(); sig.Variadic || len(sig.TypeName) > 0 {
 		invokeeType = sig
 	}
 	fmt.Fprintf(buf, " %s %s(", invokeeType, term.Invokee.Ident())
@@ -629,9 +630,10 @@ func (term *TermCallBr) LLString() string {
 	if term.AddrSpace != 0 {
 		fmt.Fprintf(buf, " %s", term.AddrSpace)
 	}
-	// Use function signature instead of return type for variadic functions.
+	// Use function signature instead of return type for variadic functions, and
+	// for callees whose type was given by name (`%fn = type void ()`).
 	calleeType := term.Type()
-	if sig := term.Sig(); sig.Variadic {
+	if sig := term.Sig(); sig.Variadic || len(sig.TypeName) > 0 {
 		calleeType = sig
 	}
 	fmt.Fprintf(buf, " %s %s(", calleeType, term.Callee.Ident())
